@@ -1034,6 +1034,25 @@ w('C16', 'bound-method exporter: visit asks to stop after the first bridge', 'C1
   (HGENF, '\te.bridges = append(e.bridges, bridge)\n\treturn false, nil', '\te.bridges = append(e.bridges, bridge)\n\treturn true, nil'))
 w('C15', 'signatures validated against a constant chain id instead of the stored L1 chain id', 'C15.R2',
   ('x/opchild/keeper/oracle.go', 'err = l2connect.ValidateVoteExtensions(sdkCtx, k.HostValidatorStore, h-1, hostChainID, extendedCommitInfo)', 'err = l2connect.ValidateVoteExtensions(sdkCtx, k.HostValidatorStore, h-1, "initiation-1", extendedCommitInfo)\n\t_ = hostChainID'))
+
+wseed('C11e','C11.R2'); wseed('C12e','C12.R3'); wseed('C13e','C13.R11'); wseed('C14e','C14.R7'); wseed('C15e','C15.R5')
+wseed('C16e','C16.R3'); wseed('C17e','C17.R1'); wseed('C18e','C18.R1'); wseed('C19e','C19.R4'); wseed('C20e','C20.R4')
+for b in ['B25','B26','B27','B28','B29','B30']:
+    for i in range(1,7):
+        wbenign(b,'p%d.diff'%i)
+# value-level mutants next to the value-level normal forms: these must NOT be normalised away
+w('C10', 'deposit amount attribute formatted through int (wraps from 2^63)', 'C10.R3',
+  (HM, '\t"strconv"\n', '\t"fmt"\n\t"strconv"\n'),
+  (HM, 'sdk.NewAttribute(types.AttributeKeyAmount, coin.Amount.String()),', 'sdk.NewAttribute(types.AttributeKeyAmount, fmt.Sprintf("%d", int64(coin.Amount.Uint64()))),'))
+w('C10', 'deposit sequence attribute printed in hex', 'C10.R3',
+  (HM, '\t"strconv"\n', '\t"fmt"\n\t"strconv"\n'),
+  (HM, 'sdk.NewAttribute(types.AttributeKeyL1Sequence, strconv.FormatUint(l1Sequence, 10)),', 'sdk.NewAttribute(types.AttributeKeyL1Sequence, fmt.Sprintf("%x", l1Sequence)),'))
+w('C10', 'BENIGN: deposit sequence attribute through fmt.Sprintf("%d")', '',
+  (HM, '\t"strconv"\n', '\t"fmt"\n\t"strconv"\n'),
+  (HM, 'sdk.NewAttribute(types.AttributeKeyL1Sequence, strconv.FormatUint(l1Sequence, 10)),', 'sdk.NewAttribute(types.AttributeKeyL1Sequence, fmt.Sprintf("%d", l1Sequence)),'))
+
+wseed('C01f','C01.R9'); wseed('C02f','C02.R8'); wseed('C03f','C03.R3'); wseed('C04f','C04.R8'); wseed('C05f','C05.R7')
+wseed('C06f','C06.R5'); wseed('C07f','C07.R1'); wseed('C08f','C08.R6'); wseed('C09f','C09.R7'); wseed('C10f','C10.R4')
 #@@MORE@@
 for p,l in W.items():
     json.dump(l, open(os.path.join(HERE,p+'.json'),'w'), indent=1)
